@@ -93,6 +93,9 @@ def run_case(case, obs):
         obs.cell(f"container:{f_['kind']}")
     if case["layout"] in cc.STACKED and case["ns_nan"]:
         obs.cell("stacked_layout+missing_samples")
+    if zoo.kind(case["cls"]) in ("single_rot", "cross_rot"):
+        obs.cell(f"rot_compute:{cc.rot_compute(case)}")
+        obs.tag(rot_compute=cc.rot_compute(case))
     tr = cc.build_training(case)
     fitted = cc.fit_model(case, tr, obs)  # a failing fit of a valid input propagates -> violation by the runner
     lay = tr["lay"]
